@@ -25,7 +25,9 @@ Witness == {"sig-flip", "sig-drop", "sig-extra", "sig-swap", "sig-dup-key", "pre
             "in2-sig-flip", "in2-sig-drop", "in2-sig-zero", "in2-sig-extra"}    \* the witnesses of a second input from the same address
 Keys    == {"other-policy", "other-key", "proposed-keys", "renew-other-keys", "renew-stale-keys", "attest-other-key",
             "fnd-unauthorised", "contract-sig-flip", "renewal-sig-flip", "attest-sig-flip", "timelocked-policy",
-            "relabel-parent", "stale-keys", "alg-swap", "fnd-append", "fnd-append-void", "renewal-swap-new"}
+            "relabel-parent", "stale-keys", "alg-swap", "fnd-append", "fnd-append-void", "renewal-swap-new",
+            \* an update by somebody else to an address that is already one of the two in effect (it still changes the other)
+            "fnd-unauthorised-primary", "fnd-unauthorised-mgmt"}
 Tampers == Content \cup Witness \cup Keys
 
 \* ---- shapes ---------------------------------------------------------------------
@@ -49,7 +51,7 @@ Shapes == [
   \* a payment the Foundation signs with a partial signature (its input, its output, a memo): a third party must not be
   \* able to append a Foundation address update that the signature does not cover
   v1fndpartial |-> Shape({"out-addr", "uncovered-out"}, {"out-addr"}, {"sig"}, FALSE, {"fnd-append", "other-key"}),
-  v1foundation |-> Shape({"fnd-addr", "out-addr"}, {"fnd-addr", "out-addr"}, {"sig"}, FALSE, {"fnd-unauthorised", "other-key"}),
+  v1foundation |-> Shape({"fnd-addr", "out-addr"}, {"fnd-addr", "out-addr"}, {"sig"}, FALSE, {"fnd-unauthorised", "fnd-unauthorised-primary", "fnd-unauthorised-mgmt", "other-key"}),
   v2pk       |-> Shape(AllPay, AllPay, {"sig"}, FALSE, {"other-policy", "other-key", "relabel-parent"}),
   \* an output created earlier in the same block (no accumulator proof): the claimed parent must still be the real one
   \* two inputs from one address: each input carries its own witnesses and each must be checked
@@ -72,7 +74,7 @@ Shapes == [
   v2renew    |-> Shape({"renewal-final", "renewal-new", "out-addr"}, {"renewal-final", "renewal-new", "out-addr"}, {"sig"}, FALSE,
                        {"renew-other-keys", "renew-stale-keys", "renewal-sig-flip", "contract-sig-flip", "renewal-swap-new"}),
   v2attest   |-> Shape({"attest-value", "out-addr"}, {"attest-value", "out-addr"}, {"sig"}, FALSE, {"attest-other-key", "attest-sig-flip"}),
-  v2foundation |-> Shape({"fnd-addr", "out-addr"}, {"fnd-addr", "out-addr"}, {"sig"}, FALSE, {"fnd-unauthorised"})
+  v2foundation |-> Shape({"fnd-addr", "out-addr"}, {"fnd-addr", "out-addr"}, {"sig"}, FALSE, {"fnd-unauthorised", "fnd-unauthorised-primary", "fnd-unauthorised-mgmt"})
 ]
 ShapeNames == DOMAIN Shapes
 
